@@ -29,6 +29,8 @@ def kern_items(prefix, entry, sizes, **extra):
 
 
 CHECKS = {}
+NOT_APPLICABLE = {}
+NOTES = "Every check is bounded symbolic execution of the real code (go/ssa -> own executor -> z3). Bounds are stated per check in the evidence; nothing outside them is claimed. Genuine defects found by the checks are either repaired in /repo (fix: commits, listed as fixed in known_findings.json) or listed as open known findings."
 
 CHECKS["C04"] = {
     "explanation": "bounded symbolic execution of validSymlink / Unpack from go/ssa; every byte of entry names and link targets is a free 8-bit symbol; the oracle is an independent segment-stack resolver",
@@ -43,5 +45,55 @@ CHECKS["C04"] = {
                    quick=kern_items("c04k", "HarnessC04Kernel", [(a, b) for a in range(0, 4) for b in range(0, 6)]),
                    thorough=kern_items("c04k", "HarnessC04Kernel", [(a, b) for a in range(0, 5) for b in range(0, 8)]),
                    reach=["accepted", "rejected"]),
+    ],
+}
+
+
+def sa_group(name, harness, quick, thorough, **kw):
+    g = {"name": name, "pkg": "./sourceaddrs",
+         "sym_overlays": RT_SYM + ["models/svchost.go", "harness/sourceaddrs/ref_paths.go"] + harness,
+         "native_overlays": RT_NAT + ["rt/native_noenv.go", "harness/sourceaddrs/ref_paths.go"] + harness,
+         "quick": quick, "thorough": thorough}
+    g.update(kw)
+    return g
+
+
+def c11_items(kinds, subs, rels):
+    out = []
+    for k in kinds:
+        for a in subs:
+            for b in rels:
+                out.append({"id": "c11-k%d-%dx%d" % (k, a, b), "entry": "HarnessC11Resolve", "params": {"kind": k, "nSub": a, "nRel": b}, "_w": 3 ** (a + b)})
+    return out
+
+
+CHECKS["C11"] = {
+    "registered": True,
+    "level_text": "Bounded model checking by symbolic execution: for every byte string of the stated lengths as base path and relative path, and bases of every kind, the real resolve functions (including path.Join/Clean and fs.ValidPath executed from SSA) agree with an independent segment-stack reference; z3 decides every branch and assertion. Exhaustive within the length bounds, silent beyond them.",
+    "level_note": "Trusted: go/ssa lowering, the gosym interpreter (cross-checked by native replay of sampled path witnesses on every run), z3. Bases are built as struct values with sub-paths in parser normal form; hostnames are concrete.",
+    "explanation": "bounded symbolic execution of ResolveRelativeSource / ResolveRelativeFinalSource / joinSubPath / FinalSourceAddr (with path.Join, path.Clean, fs.ValidPath from their SSA) against an independent segment-stack reference; all bytes of base path and relative path are free symbols",
+    "anchors": ["github.com/hashicorp/go-slug/sourceaddrs.ResolveRelativeSource", "github.com/hashicorp/go-slug/sourceaddrs.ResolveRelativeFinalSource",
+                "github.com/hashicorp/go-slug/sourceaddrs.joinSubPath", "(github.com/hashicorp/go-slug/sourceaddrs.RegistrySource).FinalSourceAddr"],
+    "bounds": {
+        "quick": "remote base: sub-path 0,1,3 bytes x relative path 2,3,5 bytes (every byte value); registry and registry-final bases 0..3 x 3..5; local base 2..4 x 2..5; triples 3+4+3 and 1+5+3 bytes; registry join 3+3, 1+4 bytes",
+        "thorough": "base sub-path 0..6 bytes x relative path 2..9 bytes; triples up to 4+5+5; registry join 5+5",
+    },
+    "assumptions": A_COMMON + ["base values are built as struct literals with sub-paths in the normal form the parsers produce (normalizeSubpath(s)==s)"],
+    "groups": [
+        sa_group("resolve", ["harness/sourceaddrs/c11.go"],
+                 quick=c11_items([0], [0, 1, 3], [2, 3, 5]) + c11_items([1, 2], [0, 3], [3]) + c11_items([1, 2], [1], [5]) + c11_items([3], [2, 3, 4], [2, 3, 5])
+                 + [{"id": "c11-k0-3x5", "entry": "HarnessC11Resolve", "params": {"kind": 0, "nSub": 3, "nRel": 5}, "shards": 4, "_w": 300},
+                    {"id": "c11-abs", "entry": "HarnessC11Abs", "params": {"nSub": 3, "nSub2": 2}, "_w": 200},
+                    {"id": "c11-comp-3-4-3", "entry": "HarnessC11Compose", "params": {"nSub": 3, "nB": 4, "nC": 3}, "_w": 400, "shards": 3},
+                    {"id": "c11-comp-1-5-3", "entry": "HarnessC11Compose", "params": {"nSub": 1, "nB": 5, "nC": 3}, "_w": 200},
+                    {"id": "c11-fin-3-3", "entry": "HarnessC11FinalAddr", "params": {"nReg": 3, "nReal": 3}, "_w": 300},
+                    {"id": "c11-fin-1-4", "entry": "HarnessC11FinalAddr", "params": {"nReg": 1, "nReal": 4}, "_w": 100}],
+                 thorough=c11_items([0, 1, 2], [0, 1, 2, 3, 4, 5, 6], [2, 3, 4, 5, 6, 7, 8, 9]) + c11_items([3], [2, 3, 4, 5, 6, 7], [2, 3, 4, 5, 6, 7])
+                 + [{"id": "c11-abs", "entry": "HarnessC11Abs", "params": {"nSub": 5, "nSub2": 3}},
+                    {"id": "c11-comp-4-5-5", "entry": "HarnessC11Compose", "params": {"nSub": 4, "nB": 5, "nC": 5}, "_w": 500, "shards": 8},
+                    {"id": "c11-comp-3-4-4", "entry": "HarnessC11Compose", "params": {"nSub": 3, "nB": 4, "nC": 4}, "_w": 50},
+                    {"id": "c11-fin-5-5", "entry": "HarnessC11FinalAddr", "params": {"nReg": 5, "nReal": 5}, "_w": 200},
+                    {"id": "c11-fin-3-3", "entry": "HarnessC11FinalAddr", "params": {"nReg": 3, "nReal": 3}, "_w": 20}],
+                 reach=["rel-accepted", "resolves", "climbs-out", "abs", "composed", "joined"]),
     ],
 }
